@@ -65,7 +65,7 @@ func (w FaultStringWriter) WriteString(s string) (int, error) { return w.Write([
 // FaultBothWriter implements io.ByteWriter and io.StringWriter.
 type FaultBothWriter struct{ *FaultWriter }
 
-func (w FaultBothWriter) WriteByte(c byte) error              { return w.writeByte(c) }
+func (w FaultBothWriter) WriteByte(c byte) error            { return w.writeByte(c) }
 func (w FaultBothWriter) WriteString(s string) (int, error) { return w.Write([]byte(s)) }
 
 // InjectedError is the error type used by all fault-injecting doubles, so that
